@@ -901,9 +901,29 @@ func (x *Exec) evalCall(env *Env, e *ECall) SV {
 		return SV{T: SlArr(arg(0).T)}
 	case "off":
 		return SV{T: SlOff(arg(0).T)}
+	case "head":
+		// head(e): e evaluated in the state at the head of the current iteration of the loop the clause belongs to
+		if env.loop == nil || env.st == nil || env.st.heads == nil || env.st.heads[env.loop] == nil {
+			specFail("head(...) is only meaningful in a loop hint or invariant")
+		}
+		hs := env.st.heads[env.loop]
+		he := &Env{x: x, st: hs, old: env.old, vars: env.vars, pkg: env.pkg, allocOld: env.allocOld, loop: env.loop, bound: env.bound}
+		if len(hs.frames) > 0 {
+			he.fr = hs.frames[0]
+		}
+		r := x.eval(he, e.Args[0])
+		env.side = append(env.side, he.takeSide()...)
+		return r
 	case "fresh":
 		v := arg(0)
 		id := x.idOf(v)
+		// the address of a field of another object is modelled as a copy in a new cell (written back on use): it is an interior
+		// pointer, never "a freshly allocated object"
+		for _, m := range env.state().mats {
+			if m.addr.String() == id.String() {
+				return SV{T: TFalse}
+			}
+		}
 		return SV{T: Cmp(">=", id, env.allocOld)}
 	case "isnil":
 		v := arg(0)
